@@ -24,7 +24,9 @@ TrSubscribe ==
   /\ Seen
 TrAutoBind ==
   /\ IsEvent("AutoBind")
-  /\ AutoBind(Ev.args.o, [prio |-> Ev.args.prio, weak |-> Ev.args.weak])
+  /\ AutoBind(Ev.args.o, [prio |-> Ev.args.prio, weak |-> Ev.args.weak,
+                          \* traces recorded before the prefix dimension existed
+                          prefix |-> IF "prefix" \in DOMAIN Ev.args THEN Ev.args.prefix ELSE ""])
   /\ Seen
 TrUnsubscribe ==
   /\ IsEvent("Unsubscribe")
